@@ -97,6 +97,7 @@ type OnlyRule struct {
 	Props   []string
 	Callee  string
 	Allowed []string // function keys
+	Within  bool     // "only CALLEE within this package in F1, F2": the rule speaks about call sites in the contract file's package only
 	File    string
 	Pkg     string
 	Line    int
@@ -334,6 +335,10 @@ func (cs *Contracts) parseFile(fname, pkg, prefix string) {
 					continue
 				}
 				r := &OnlyRule{Props: props, Callee: strings.TrimSpace(rest[:i]), File: fname, Pkg: pkg, Line: l.line}
+				if strings.HasSuffix(r.Callee, " within this package") {
+					r.Callee = strings.TrimSpace(strings.TrimSuffix(r.Callee, " within this package"))
+					r.Within = true
+				}
 				for _, a := range strings.Split(rest[i+4:], ",") {
 					a = strings.TrimSpace(a)
 					if a == "" {
